@@ -13,6 +13,8 @@ UNITS = [
          bounded='rank <= 4, extents 1..4 (all loops unwound; the detour through a flat offset needs mixed-radix reasoning that SAT does not do unboundedly)',
          clause='an array broadcast to a shape has at index i the source element at i with stretched and prepended axes dropped'),
     Unit('F.broadcast_shape.bp', 'c06', 'verif_f_broadcast_shape', mode='bp', unwind=10, clause='fixed-size operands (template_for branch): succeeds exactly when aligned extents are equal or 1; per-axis maximum'),
+    Unit('C.broadcast_shape.bp', 'c06', 'verif_c_broadcast_shape', mode='bp', unwind=10, waive=[r'arithmetic overflow on (signed to unsigned|unsigned to signed) type conversion'],
+         clause='clipped-shape operands (tuple result, template_for over a tuple): same success / failure and extents as every other kind'),
     Unit('F.broadcast_shape32.bp', 'c06', 'verif_f_broadcast_shape32', mode='bp', unwind=10, clause='fixed-size operands of different rank'),
     Unit('shape_broadcast_to.bp', 'c06', 'verif_shape_broadcast_to', mode='bp', unwind=10, clause='broadcast_to succeeds iff each source extent equals the target extent or is 1; stretched/prepended axes are flagged free'),
     Unit('lemma.commutative', 'c06', None, lemma='lemma_bcast_commutative', unwind=10, clause='result does not depend on operand order'),
